@@ -12,7 +12,7 @@ import (
 )
 
 var c19Ops = []string{"Start", "Client", "Protocol", "ReattachConfig", "ID", "Exited", "Kill"}
-var c19Modes = []string{"ok", "fail-line", "fail-timeout", "fail-exit", "fail-proto", "fail-cert", "prelaunch-fail", "proc-ok", "proc-fail", "cmd-ok", "cmd-fail"}
+var c19Modes = []string{"ok", "ok-nolisten", "fail-line", "fail-timeout", "fail-exit", "fail-proto", "fail-cert", "prelaunch-fail", "proc-ok", "proc-fail", "cmd-ok", "cmd-fail"}
 
 func c19Gen(r *rand.Rand, tier string) []spec.Case {
 	var out []spec.Case
@@ -25,9 +25,9 @@ func c19Gen(r *rand.Rand, tier string) []spec.Case {
 	modeFor := func(i int) string {
 		// scripted modes are cheap: 3 of 4 cases; real processes the rest
 		if i%4 == 3 {
-			return pick(r, c19Modes[7:])
+			return pick(r, c19Modes[8:])
 		}
-		return pick(r, c19Modes[:7])
+		return pick(r, c19Modes[:8])
 	}
 	for i := 0; i < nseq; i++ {
 		n := 1 + r.Intn(10)
@@ -48,6 +48,10 @@ func c19Gen(r *rand.Rand, tier string) []spec.Case {
 		}
 		add("conc", spec.C19Case{Mode: modeFor(i), Threads: th, Jitter: r.Intn(2) == 0})
 	}
+	// Start succeeds, Client() fails, Kill, and everything again: nothing may be launched a second time
+	add("seq", spec.C19Case{Mode: "ok-nolisten", Threads: [][]string{{"Start", "Client", "ReattachConfig", "Kill", "Client", "Start", "Protocol", "ReattachConfig"}}})
+	add("seq", spec.C19Case{Mode: "ok-nolisten", Threads: [][]string{{"Start", "Kill", "Start", "ReattachConfig", "Client"}}})
+	add("seq", spec.C19Case{Mode: "ok-nolisten", Threads: [][]string{{"Client", "Kill", "Kill", "Protocol", "Start"}}})
 	// the D11 shape explicitly: failed first Start, then everything at once
 	for _, m := range []string{"fail-line", "fail-timeout", "fail-exit", "fail-proto", "fail-cert", "proc-fail"} {
 		th := [][]string{{"Start"}}
@@ -69,7 +73,8 @@ type c19State struct {
 }
 
 func c19Model(mode string) porcupine.Model {
-	firstOK := mode == "ok" || mode == "proc-ok" || mode == "cmd-ok"
+	firstOK := mode == "ok" || mode == "proc-ok" || mode == "cmd-ok" || mode == "ok-nolisten"
+	noListen := mode == "ok-nolisten" // Start succeeds, the protocol client can never be built
 	prelaunch := mode == "prelaunch-fail"
 	// begin: effect of an implicit Start on a new client
 	begin := func(s c19State, ok bool) (bool, c19State) {
@@ -118,6 +123,13 @@ func c19Model(mode string) porcupine.Model {
 				}
 				return s.Addr == o.Addr, s
 			case "Client":
+				if noListen {
+					// the implicit Start takes effect, the call itself fails, every time
+					if s.Phase == 0 {
+						s.Phase = 1
+					}
+					return !o.OK, s
+				}
 				if s.Phase == 0 {
 					ok, ns := begin(s, o.OK)
 					if ok && o.OK {
